@@ -225,6 +225,10 @@ structure Params where
   in a VALUE of its own (`unixSocketCfg UnixSocketConfig`, assigned by copy from `*config.UnixSocketConfig`), not in the
   caller's struct: two clients configured with one `UnixSocketConfig` cannot see each other's directory -/
   socketDirOwnedByClient : Bool
+  /-- `Start`, custom-runner branch: every `return` between the creation of the socket directory and the recording of a
+  runner (the group could not be applied, `RunnerFunc` returned an error) removes the directory first — `Kill` will not,
+  there being no runner -/
+  socketDirRemovedIfNoRunner : Bool
   deriving DecidableEq, Repr
 
 /-- Behaviour of libraries the call graph passes through (not extracted; theorems hold for every value). -/
@@ -277,6 +281,10 @@ instance (P : Params) : Decidable P.GoodKill := by unfold Params.GoodKill; exact
 `UnixSocketConfig` pointer and started later) -/
 def killRemovesOwnDir (P : Params) (sharedCfg : Bool) : Bool := P.socketDirOwnedByClient || !sharedCfg
 
+/-- a custom-runner launch that fails BEFORE a runner exists (after the socket directory was created): is a directory left
+once `Start` has returned its error (a later `Kill` finds no runner and does nothing)? -/
+def dirLeftWithoutRunner (P : Params) : Bool := !P.socketDirRemovedIfNoRunner
+
 /-- All edges present, all sites known. -/
 def goodParams : Params :=
   { killClosesClient := true, killWaitsForGoroutines := true, killRemovesSocketDir := true,
@@ -287,7 +295,7 @@ def goodParams : Params :=
     muxerCloseClosesWrappedListener := true, acceptAndServeClosesListener := true,
     acceptAndServeEndsOnBrokerDone := true, brokeredListenerIsRmListener := true,
     listenerRemovesFile := true, goSites := knownSites, killCleanupWheneverRunner := true,
-    socketDirOwnedByClient := true }
+    socketDirOwnedByClient := true, socketDirRemovedIfNoRunner := true }
 
 /-! ### The `Close` call graph: which shutdown events a graceful `Kill` produces -/
 
